@@ -640,12 +640,30 @@ def pairwise_balance(fn: ast.FunctionDef) -> Optional[Dict[str, int]]:
                     if c is not None and isinstance(t, ast.Name) and (c != 0 or any(is_p(x) for x in ast.walk(comp.elt))):
                         lists[t.id] = c
                     continue
+                if isinstance(v, ast.Call) and norm(v.func) == "sum" and v.args and isinstance(v.args[0], (ast.ListComp, ast.GeneratorExp)) \
+                        and isinstance(t, ast.Name):
+                    # total = sum(e(p) for p in <list of p's>): every p enters the scalar with the coefficient of e
+                    comp = v.args[0]
+                    local = {}
+                    for g in comp.generators:
+                        bind_loop(g.target, g.iter, local)
+                    c = lin(comp.elt, local)
+                    if c:
+                        acc[t.id] = acc.get(t.id, 0) + c
+                    continue
                 c = lin(v, {})
                 if isinstance(t, ast.Name) and c is not None and not (isinstance(v, ast.Constant)):
                     env[t.id] = c
                 elif isinstance(t, ast.Subscript) and base_name(t) and c is not None and c != 0:
                     acc[base_name(t)] = acc.get(base_name(t), 0) + c   # table[i] = p  (each slot written once)
                     tables.add(base_name(t))
+                continue
+            if isinstance(st, ast.Expr) and isinstance(st.value, ast.Call) and isinstance(st.value.func, ast.Attribute) \
+                    and st.value.func.attr == "append" and isinstance(st.value.func.value, ast.Name) and len(st.value.args) == 1:
+                # a list of p's built by appending one p per iteration
+                c = lin(st.value.args[0], {})
+                if c is not None and (c != 0 or is_p(st.value.args[0])):
+                    lists[st.value.func.value.id] = c
                 continue
             if isinstance(st, ast.AugAssign) and isinstance(st.op, (ast.Add, ast.Sub)):
                 c = lin(st.value, {})
